@@ -19,7 +19,10 @@ RULE = ("history: random command trees (vp/gen_cmd.py, depth 2-3, aliases, flag 
         "build() twice on every generated tree.  A case is non-trivial when the history is non-empty and the final "
         "parse enters a subcommand, asks for help/version or fails; distinct = distinct case text.")
 TRUSTED = [
-    "Coq 8.16.1 kernel (coqc); no native_compute; theorems C11_* are 'Closed under the global context'",
+    "Coq 8.16.1 kernel (coqc); no native_compute; the 15 state-level theorems C11_* are 'Closed under the global "
+    "context'; the 4 parser-level ones (C11_parser_reads_signatures, C11_parse_normal_form, C11_parse_names_normal_form, "
+    "C11_history_independence) use the standard-library axiom FunctionalExtensionality.functional_extensionality_dep "
+    "(to rewrite equal functions under binders) and nothing else",
     "extraction: ExtrOcamlBasic only, no Extract Constant; OCaml driver ocaml/reentrancy_driver.ml + common_parse/{spec,show}.ml",
     "correspondence: vp/props/c11.py generators and projection, harness/src/modes/history.rs (public API only: "
     "try_get_matches_from_mut, build, render_help, render_long_help, render_usage, clone, get_bin_name, "
